@@ -203,12 +203,27 @@ func (Engine) Gen(seed uint64, idx int, tier string) interface{} {
 	case x < 5:
 		sc.Src = gen.GenScope(simrt.NewRand(r.Uint64()), 2).Render()
 		sc.Name = "<scopegen>"
-	case x < 8:
+	case x < 7:
 		n := 1 + r.Intn(2)
 		for i := 0; i < n; i++ {
 			sc.Src += fuzzStmt(r)
 		}
 		sc.Name = "<exprfuzz>"
+	case x < 8:
+		// a seeded sequence of tokens / fragments (keywords, operators, literals
+		// incl. malformed ones, indentation, control bytes, non-ASCII)
+		n := 1 + r.Intn(12)
+		toks := append(append([]string(nil), spliceAlphabet...), "x", "y", "1", "2.5", "'s'", "f", "self", "    ", "\n", "\n", "0", "(", ")", ":", "=", ",")
+		for i := 0; i < n; i++ {
+			sc.Src += toks[r.Intn(len(toks))]
+			if r.Chance(2, 3) {
+				sc.Src += " "
+			}
+		}
+		if r.Chance(1, 2) {
+			sc.Src += "\n"
+		}
+		sc.Name = "<tokens>"
 	default:
 		n := 1 + r.Intn(3)
 		for i := 0; i < n; i++ {
@@ -216,7 +231,7 @@ func (Engine) Gen(seed uint64, idx int, tier string) interface{} {
 		}
 		sc.Name = "<snippets>"
 	}
-	if sc.Mode == "eval" {
+	if sc.Mode == "eval" && sc.Name != "<tokens>" && sc.Name != "<exprfuzz>" {
 		// an expression: take something bracket-rich
 		es := []string{"f(a, *b, c=1, **d)[1:2].x + (lambda q: q)(1) if y else [i for i in z]", "{1: 'a', **m}", "(yield x)", "a < b < c and not d or e", "'%s' % (x,) + \"\"\"t\"\"\" * 2", "[1, 2,\n 3]", "1 + \\\n 2", "(a,\n b) \\\n + c", "x \\\n"}
 		sc.Src = es[r.Intn(len(es))]
@@ -226,7 +241,7 @@ func (Engine) Gen(seed uint64, idx int, tier string) interface{} {
 	if r.Chance(1, 8) {
 		nf = 3
 	}
-	if sc.Name == "<exprfuzz>" && r.Chance(2, 3) {
+	if (sc.Name == "<exprfuzz>" || sc.Name == "<tokens>") && r.Chance(2, 3) {
 		nf = 0
 	}
 	if r.Chance(1, 12) {
